@@ -10,6 +10,7 @@ package verifnd
 import (
 	"fmt"
 	"runtime"
+	"sync"
 )
 
 // Run is the native state of one harness execution.
@@ -38,7 +39,12 @@ func SetRun(r *Run) {
 type AssumeViolated struct{}
 type KnownFindingHit struct{ ID string }
 
+// mu guards the native run state (leaf functions may be called from the two goroutines of Concurrent).
+var mu sync.Mutex
+
 func fresh(base string) string {
+	mu.Lock()
+	defer mu.Unlock()
 	n := cur.seq[base]
 	cur.seq[base] = n + 1
 	if n == 0 {
@@ -95,12 +101,18 @@ func Assume(c bool) {
 // Assert states a proof obligation. INTERCEPTED.
 func Assert(c bool, msg string) {
 	if !c {
+		mu.Lock()
 		cur.Failures = append(cur.Failures, msg)
+		mu.Unlock()
 	}
 }
 
 // Reach marks a program point that some feasible path must reach (vacuity guard). INTERCEPTED.
-func Reach(label string) { cur.Reached = append(cur.Reached, label) }
+func Reach(label string) {
+	mu.Lock()
+	cur.Reached = append(cur.Reached, label)
+	mu.Unlock()
+}
 
 // Freeze makes everything allocated so far, and all package-level variables, read-only for the
 // write monitor (C20). No native effect. INTERCEPTED.
@@ -312,4 +324,19 @@ func WaitAll() {
 	if p != nil {
 		panic(p)
 	}
+}
+
+// Concurrent runs the operation f of a non-interference check (C20). Under the executor f runs once
+// with the write monitor armed (INTERCEPTED). Natively f runs in two goroutines at once; the
+// replay binary is built with the race detector, which reports the write the monitor predicted.
+func Concurrent(f func()) {
+	var wg sync.WaitGroup
+	for i := 0; i < 2; i++ {
+		wg.Add(1)
+		go func() {
+			defer wg.Done()
+			f()
+		}()
+	}
+	wg.Wait()
 }
